@@ -50,3 +50,65 @@ package icmp
 //@   entry row bare: [call WriteString(_, "icmp and icmp[0]!=8") ; call String(_) as (res)] when r.DstSubnet == nil && ret0 == res && ret1 == 1518 -> exit
 //@   entry row net:  [call WriteString(_, "icmp and icmp[0]!=8") ; call WriteString(_, " and ip src net ") ; call String(r.DstSubnet) as (ns) ; call WriteString(_, ns) ; call String(_) as (res)]
 //@                      when r.DstSubnet != nil && ret0 == res && ret1 == 1518 -> exit
+
+// ---------------------------------------------------------------------------------------------
+// C05: ICMP probe frames (see pkg/scan/udp): configured TTL / flags / protocol / total length / type / code / payload
+//@ pred iphdr(ip *layers.IPv4, f *PacketFiller, r *scan.Request, id0 int) = fresh(ip) && ip.SrcIP == r.SrcIP && ip.DstIP == r.DstIP && ip.Version == 4 && ip.IHL == 5
+//@      && ip.Id == 1 + id0 && 1 <= ip.Id && ip.Id <= 65535 && ip.TTL == f.ttl && ip.Flags == f.flags && ip.Length == f.length && ip.Protocol == f.proto
+//@ pred ethhdr(e *layers.Ethernet, r *scan.Request) = fresh(e) && e.SrcMAC == r.SrcMAC && e.DstMAC == r.DstMAC && e.EthernetType == 2048
+//@ func (*PacketFiller).Fill
+//@   props C05
+//@   observe rand.Intn, layers.CreateICMPv4TypeCode, gopacket.SerializeLayers
+//@   entry row vpn:   [call rand.Intn(65535) as (id0) ; call rand.Intn(65535) as (id1) ; call layers.CreateICMPv4TypeCode(f.typ, f.code) as (tc) ; call gopacket.SerializeLayers(packet, bind_opt, bind_ls) as (se)]
+//@                       when f.vpnMode && ret == se && opt.ComputeChecksums && (opt.FixLengths <==> f.length == 0) && len(ls) == 3
+//@                         && isptr(ls[0], layers.IPv4) && iphdr(asptr(ls[0], layers.IPv4), f, r, id0)
+//@                         && isptr(ls[1], layers.ICMPv4) && fresh(asptr(ls[1], layers.ICMPv4)) && asptr(ls[1], layers.ICMPv4).TypeCode == tc && asptr(ls[1], layers.ICMPv4).Id == 1 + id1
+//@                         && istype(ls[2], gopacket.Payload) && astype(ls[2], gopacket.Payload) == f.payload -> exit
+//@   entry row eth:   [call rand.Intn(65535) as (id0) ; call rand.Intn(65535) as (id1) ; call layers.CreateICMPv4TypeCode(f.typ, f.code) as (tc) ; call gopacket.SerializeLayers(packet, bind_opt, bind_ls) as (se)]
+//@                       when !f.vpnMode && ret == se && opt.ComputeChecksums && (opt.FixLengths <==> f.length == 0) && len(ls) == 4
+//@                         && isptr(ls[0], layers.Ethernet) && ethhdr(asptr(ls[0], layers.Ethernet), r)
+//@                         && isptr(ls[1], layers.IPv4) && iphdr(asptr(ls[1], layers.IPv4), f, r, id0)
+//@                         && isptr(ls[2], layers.ICMPv4) && fresh(asptr(ls[2], layers.ICMPv4)) && asptr(ls[2], layers.ICMPv4).TypeCode == tc && asptr(ls[2], layers.ICMPv4).Id == 1 + id1
+//@                         && istype(ls[3], gopacket.Payload) && astype(ls[3], gopacket.Payload) == f.payload -> exit
+
+// C05: every option sets exactly its own field (frame: nothing else of the filler changes); the payload option stores a private copy
+//@ func WithTTL$1
+//@   props C05
+//@   modifies f.ttl
+//@   ensures f.ttl == ttl
+//@ func WithIPTotalLength$1
+//@   props C05
+//@   modifies f.length
+//@   ensures f.length == length
+//@ func WithIPProtocol$1
+//@   props C05
+//@   modifies f.proto
+//@   ensures f.proto == proto
+//@ func WithIPFlags$1
+//@   props C05
+//@   modifies f.flags
+//@   ensures f.flags == flags
+//@ func WithVPNmode$1
+//@   props C05
+//@   modifies f.vpnMode
+//@   ensures f.vpnMode == vpnMode
+//@ func WithType$1
+//@   props C05
+//@   modifies f.typ
+//@   ensures f.typ == typ
+//@ func WithCode$1
+//@   props C05
+//@   modifies f.code
+//@   ensures f.code == code
+//@ func WithPayload$1
+//@   props C05
+//@   modifies f.payload
+//@   ensures len(f.payload) == len(payload) && fresh(backing(f.payload)) && (forall i int :: 0 <= i && i < len(payload) ==> f.payload[i] == payload[i])
+// constructor: defaults (TTL 64, protocol ICMP, don't-fragment, echo request, 48 random payload bytes) are set BEFORE
+// the options run, then the options in order, nothing afterwards (so an explicitly requested empty payload stays empty)
+//@ func NewPacketFiller
+//@   props C05
+//@   observe rand.Read, o
+//@   entry row init:  [call rand.Read(bind_p)] when len(p) == 48 -> loop 0
+//@   loop 0 row apply: [call o(bind_x)] when fresh(x) -> continue
+//@   loop 0 row done:  [] when fresh(ret) -> exit
